@@ -10,4 +10,15 @@ for d in /tmp/seed_C*; do
     fi
   done
 done
+for d in /tmp/zw_r*x; do
+  [ -d "$d" ] || continue
+  id=C$(basename $d | sed 's/zw_r\(..\)x/\1/')
+  for k in 1 2 3; do
+    if [ -s $d/round2_$k.diff ]; then
+      mkdir -p /verif/seeded/$id
+      cp $d/round2_$k.diff /verif/seeded/$id/round2_$k.diff
+      [ -f $d/round2_demo_$k.py ] && cp $d/round2_demo_$k.py /verif/seeded/$id/round2_demo_$k.py
+    fi
+  done
+done
 ls /verif/seeded
